@@ -715,7 +715,9 @@ pub fn crowd_probes(id0: u64) -> Vec<Value> {
     let tok = json!({"kind":"issued","step":0});
     let mut id = id0;
     for signed in [false, true] {
-        for n in [1usize, 9, 10, 11, 19, 20, 21, 22, 40] {
+        // (count of announcers, configured capacity per info_hash): around the answer size with the default capacity, and past
+        // capacities that are neither tiny nor the default (17, 33: between the sizes a growing allocation would pass through)
+        for (n, cap) in [(1usize, 500usize), (9, 500), (10, 500), (11, 500), (19, 500), (20, 500), (21, 500), (22, 500), (40, 500), (40, 17), (40, 33), (70, 33)] {
             let mut steps = vec![json!({"kind": if signed { "getspeers" } else { "getpeers" }, "from": from, "t": "h1"})];
             let ann = |j: usize, h: &str| {
                 if signed {
@@ -735,7 +737,7 @@ pub fn crowd_probes(id0: u64) -> Vec<Value> {
             steps.push(get("h1"));
             steps.push(get("h2"));
             steps.push(json!({"kind":"ping","from":from}));
-            v.push(json!({"b": id, "filter": "allow", "caps": {"imm": 1000, "mut": 1000, "hash": 2000, "peers": 500}, "steps": steps}));
+            v.push(json!({"b": id, "filter": "allow", "caps": {"imm": 1000, "mut": 1000, "hash": 2000, "peers": cap}, "steps": steps}));
             id += 1;
         }
     }
